@@ -96,4 +96,97 @@ theorem pollFlush_phase {sc : Sched} {p : Peer} {b' : Nat} {o : Ossl} {v : View}
       simp
       omega
 
+/-- `MidHandshake::poll` followed by `finish_handshake` and the flush -/
+def midBody (sc : Sched) (o : Ossl) (v : View) : HsFut × Ossl × View × PollR Unit :=
+  match sslDoHandshake sc sc.fuel { o with ctx := true } v with
+  | (o, v, .wouldBlock p) => (.mid, { o with ctx := false }, v, .pending p)
+  | (o, v, .err) => (.failed, { o with ctx := false }, v, .err)
+  | (o, v, .panic) => (.failed, { o with ctx := false }, v, .panic)
+  | (o, v, .ok ()) =>
+    let o := { o with ctx := false, handshaken := true }
+    match pollFlush sc o v with
+    | (o, v, .ready ()) => (.done, o, v, .ready ())
+    | (o, v, .pending p) => (.flush, o, v, .pending p)
+    | (o, v, .err) => (.failed, o, v, .err)
+    | (o, v, .panic) => (.failed, o, v, .panic)
+
+theorem pollHandshake_mid (sc : Sched) (o : Ossl) (v : View) : pollHandshake sc .mid o v = midBody sc o v := rfl
+
+theorem pollHandshake_start (sc : Sched) (o : Ossl) (v : View) : pollHandshake sc .start o v =
+    (match sslDoHandshake sc sc.fuel { o with ctx := true } v with
+      | (o, v, .ok ()) => (.done, { o with ctx := false }, v, .ready ())
+      | (o, v, .wouldBlock _) => midBody sc { o with ctx := false } v
+      | (o, v, .err) => (.failed, { o with ctx := false }, v, .err)
+      | (o, v, .panic) => (.failed, { o with ctx := false }, v, .panic)) := rfl
+
+theorem K4 (sc : Sched) (n : Nat) : 4 * K sc * (n + 1) = 4 * K sc * n + 4 * K sc := by
+  rw [Nat.mul_add]; omega
+
+/-- one poll in state `mid` -/
+theorem poll_mid_spec {sc : Sched} {p : Peer} {b' : Nat} {o : Ossl} {v : View}
+    (hr : Rest sc p b' .mid o v) (hfuel : o.tape.length + o.post < sc.fuel) :
+    PollPost sc p b' .mid o v (midBody sc o v).1 (midBody sc o v).2.1 (midBody sc o v).2.2.1
+      (midBody sc o v).2.2.2 := by
+  obtain ⟨hl, hc, hk, hph⟩ := hr
+  have hhs : Hs o v := hph
+  have hg : Good sc p b' { o with ctx := true } v :=
+    ⟨⟨hl.lim, hl.direct, hl.ctrok, hl.open_tx, hl.open_rx, hl.clean, hl.nobuf⟩,
+     ⟨hhs.nohs, hhs.early, hhs.flushed⟩, rfl, by
+       obtain ⟨a, b, a', hk⟩ := hk
+       exact ⟨a, b, a', ⟨hk.tx, hk.txp, hk.rx, hk.rxp, hk.align⟩⟩⟩
+  have hspec := doHs_spec sc p b' sc.fuel { o with ctx := true } v hg hfuel
+  generalize hres : sslDoHandshake sc sc.fuel { o with ctx := true } v = res at hspec
+  obtain ⟨o1, v1, r⟩ := res
+  obtain ⟨⟨hl1, hh1, hc1, hk1⟩, hme, hmono, hmeas, hres1⟩ := hspec
+  simp only at hl1 hh1 hc1 hk1 hme hmono hmeas hres1
+  have hloc1 : Local sc { o1 with ctx := false } v1 :=
+    ⟨hl1.lim, hl1.direct, hl1.ctrok, hl1.open_tx, hl1.open_rx, hl1.clean, hl1.nobuf⟩
+  have hlink1 : ∃ a b a', Link { o1 with ctx := false } v1 p a b a' b' := by
+    obtain ⟨a, b, a', hk⟩ := hk1
+    exact ⟨a, b, a', ⟨hk.tx, hk.txp, hk.rx, hk.rxp, hk.align⟩⟩
+  have hrest1 : Rest sc p b' .mid { o1 with ctx := false } v1 :=
+    ⟨hloc1, rfl, hlink1, ⟨hh1.nohs, hh1.early, hh1.flushed⟩⟩
+  cases r with
+  | wouldBlock pd =>
+    simp only [midBody, hres]
+    refine ⟨hrest1, hme, hmono, hmeas, by simp, ?_⟩
+    cases pd with
+    | self =>
+      simp only at hres1 ⊢
+      exact ⟨hres1.2, by simp only [Spot, S0_ctx] at *; omega, by simp⟩
+    | reg =>
+      simp only at hres1 ⊢
+      obtain ⟨h1, h2, h3, h4, h5, t, h6⟩ := hres1
+      exact ⟨rfl, Or.inr h2, by simp only [Spot, S0_ctx] at *; omega, h3, h4, h5, t, h6⟩
+  | err => exact absurd hres1 id
+  | panic => exact absurd hres1 id
+  | ok u =>
+    cases u
+    simp only at hres1
+    obtain ⟨ht1, hp1, hS1, hown1⟩ := hres1
+    -- finish_handshake, then the flush
+    have hl2 : Local sc { o1 with ctx := false, handshaken := true } v1 :=
+      ⟨hl1.lim, hl1.direct, hl1.ctrok, hl1.open_tx, hl1.open_rx, hl1.clean, hl1.nobuf⟩
+    have hk2 : ∃ a b a', Link { o1 with ctx := false, handshaken := true } v1 p a b a' b' := by
+      obtain ⟨a, b, a', hk⟩ := hk1
+      exact ⟨a, b, a', ⟨hk.tx, hk.txp, hk.rx, hk.rxp, hk.align⟩⟩
+    have hS2 : S0 sc { o1 with ctx := false, handshaken := true } v1 = S0 sc o1 v1 := rfl
+    rcases pollFlush_phase (p := p) (b' := b') hl2 rfl hk2 rfl ht1 hp1 hh1.early with
+      ⟨v2, heq, hrest2, hmono2, hown2, hS⟩ | ⟨v2, heq, hrest2, hmono2, hS, hhd2, hcf2⟩
+    · simp only [midBody, hres, heq]
+      refine ⟨hrest2, hme, hmono.trans hmono2, by simpa [ht1, hp1] using Nat.zero_le _, by simp, ?_⟩
+      simp only
+      refine ⟨hown2, ?_, by simp⟩
+      simp only [Spot, rank, S0_ctx] at *
+      have := K4 sc 1
+      omega
+    · simp only [midBody, hres, heq]
+      refine ⟨hrest2, hme, hmono.trans hmono2, by simpa [ht1, hp1] using Nat.zero_le _, by simp, ?_⟩
+      simp only
+      refine ⟨rfl, ?_, hhd2, hcf2⟩
+      simp only [Spot, rank, S0_ctx] at *
+      have h4 := K4 sc 1
+      have : sc.dfh + sc.df < K sc := by unfold K; omega
+      omega
+
 end Compio.TlsShim
